@@ -100,8 +100,16 @@ def match_date_range(date, date_range):
     Match a specific date, a four-tuple with no special values, with a DateRange
     object which as a start date and end date.
     """
-    return (date[:3] >= date_range.startDate[:3]) \
-        and (date[:3] <= date_range.endDate[:3])
+    start_date = tuple(date_range.startDate[:3])
+    end_date = tuple(date_range.endDate[:3])
+
+    # an unspecified date is an open end of the range
+    if (start_date != (255, 255, 255)) and (tuple(date[:3]) < start_date):
+        return False
+    if (end_date != (255, 255, 255)) and (tuple(date[:3]) > end_date):
+        return False
+
+    return True
 
 #
 #   match_weeknday
